@@ -50,6 +50,12 @@ def run(ctx, mod, a, log):
     thm_ok, thm_bad, assum = vlib.check_theorems(prop, mod.THEOREMS)
     theorem_names = ["%s.%s" % t for t in mod.THEOREMS]
     proof_problems = list(problems) + ["theorem %s.%s: %s" % b for b in thm_bad]
+    chk_note = None
+    if a.tier == "thorough" and not a.replay:
+        ok_chk, chk_out = vlib.coqchk(mod.THEOREMS)
+        chk_note = "coqchk -o: " + ("Axioms: <none>; no type-in-type, unsafe fixpoints or assumed positivity" if ok_chk else "PROBLEM")
+        if not ok_chk: proof_problems.append("coqchk did not confirm the compiled files: " + chk_out[-400:])
+        ctx.notes.append(chk_note)
     for p in proof_problems:
         print("PROOF-PROBLEM: " + p.splitlines()[0])
 
